@@ -191,3 +191,101 @@ Proof.
     refine (In_firstn_le _ _ _ _ _ I).
     pose proof (rel_cnt _ _ R) as Cnt. cbn [length pred] in Cnt. cbn [length]. lia.
 Qed.
+
+(* ---- updates (C14 part of the oracle) ---- *)
+Lemma updates_ok_model k h iss us : Rel h iss -> keep h = k -> Forall snap_sorted us ->
+  updates_ok k iss us (snd (model_updates h us)) = true /\
+  Rel (fst (model_updates h us)) (fold_left spec_update us iss) /\ keep (fst (model_updates h us)) = k.
+Proof.
+  revert h iss; induction us as [|u us IH]; intros h iss R K F; [cbn; auto|].
+  inversion F as [|? ? Su F']; subst. cbn [model_updates fold_left].
+  pose proof (Rel_update h iss u R Su) as R'.
+  destruct (update h u) as [h' chg] eqn:U. cbn [fst] in R'.
+  assert (keep h' = keep h) as K' by (pose proof (update_keep h u) as Q; rewrite U in Q; exact Q).
+  destruct (IH h' (spec_update iss u) R' K' F') as (O & RF & KF).
+  destruct (model_updates h' us) as [hf obs] eqn:M. cbn [fst snd] in *.
+  split; [|split; assumption].
+  cbn [updates_ok]. rewrite O, andb_true_r.
+  assert (spec_update iss u <> []) as NE.
+  { destruct iss as [|[n g] t]; cbn [spec_update]; [discriminate|]. destruct (snap_eqb g u); discriminate. }
+  destruct (spec_update iss u) as [|[n' g'] t'] eqn:SU; [congruence|].
+  destruct (Rel_head _ _ _ _ R') as [Es' Ec'].
+  pose proof (inv_len _ _ (rel_inv _ _ R')) as Len. rewrite K' in Len.
+  apply andb_true_iff; split; [apply andb_true_iff; split; [apply andb_true_iff; split|]|].
+  - (* changed flag *)
+    assert (chg = snd (update h u)) as -> by (rewrite U; reflexivity).
+    destruct iss as [|[n g] t].
+    + destruct (Rel_nil _ R) as [C _]. unfold update. rewrite C. reflexivity.
+    + destruct (Rel_head _ _ _ _ R) as [_ Ec]. unfold update. rewrite Ec.
+      pose proof (rel_wf _ _ R) as W. cbn [iss_wf] in W. destruct W as (Sg & _).
+      destruct (snap_eqb_spec g u) as [E|NEq].
+      * subst u. rewrite (proj2 (pconstruct_none_iff g g Sg Sg) eq_refl). reflexivity.
+      * destruct (pconstruct g u) eqn:P; [reflexivity|]. exfalso. apply NEq. apply (pconstruct_none_iff g u Sg Su). exact P.
+  - cbn [spec_serial]. rewrite Es'. apply N.eqb_refl.
+  - apply N.leb_le. exact Len.
+  - rewrite Es'. destruct iss as [|[n g] t]; cbn [spec_update] in SU.
+    + inversion SU; subst. reflexivity.
+    + destruct (snap_eqb g u); inversion SU; subst; apply N.eqb_refl.
+Qed.
+
+(* ---- the whole oracle ---- *)
+Definition model_case (c : case) : case :=
+  let '(h, obs) := model_updates (model_start c) (c_updates c) in
+  {| c_keep := c_keep c; c_init := c_init c; c_updates := c_updates c;
+     i_updates := obs; i_ready0 := false; i_ready := is_active h; i_serial := serial h;
+     i_full := match current h with Some g => g | None => {| origins := []; rkeys := []; aspas := [] |} end;
+     i_answers := map (fun q => let '(own, s, _) := q in (own, s, model_answer h own s)) (i_answers c) |}.
+
+Lemma Rel_start c : inputs_ok c = true -> Rel (model_start c) (start_issued c) /\ keep (model_start c) = c_keep c.
+Proof.
+  unfold inputs_ok, model_start, start_issued. intros H. apply andb_true_iff in H as [H _]. apply andb_true_iff in H as [_ H].
+  destruct (c_init c) as [[[s0 a] b]|]; [|split; [apply Rel_init|reflexivity]].
+  apply andb_true_iff in H as [H L]. apply andb_true_iff in H as [H D]. apply andb_true_iff in H as [Sa Sb].
+  apply snap_sortedb_spec in Sa, Sb. apply N.ltb_lt in L. apply negb_true_iff in D.
+  assert (a <> b) as Dab. { intros E. destruct (snap_eqb_spec a b); congruence. }
+  pose proof (init_at_inv (c_keep c) s0 a b Sa Sb Dab L) as HI.
+  unfold init_at in *. destruct (pconstruct a b) as [d|] eqn:P.
+  2:{ exfalso. apply Dab. apply (pconstruct_none_iff a b Sa Sb). exact P. }
+  split; [|reflexivity].
+  assert (length (push_delta (init (c_keep c)) (sadd s0 1, d)) = 1%nat) as Len.
+  { unfold push_delta, init. cbn [deltas keep length]. destruct (N.max (c_keep c) 1 <=? N.of_nat 0) eqn:Q; [apply N.leb_le in Q; lia|reflexivity]. }
+  constructor; cbn [deltas keep].
+  - cbn [iss_wf]. split; [exact Sb|]. split; [apply sadd_lt|]. split; [split; [reflexivity|exact Dab]|].
+    split; [exact Sa|]. split; [exact L|]. split; exact Logic.I.
+  - rewrite Len. cbn [firstn rev app]. exact HI.
+  - right. rewrite Len. cbn. lia.
+  - rewrite Len. cbn [length pred]. lia.
+Qed.
+
+Lemma fold_spec_update_nonempty us iss : iss <> [] -> fold_left spec_update us iss <> [].
+Proof.
+  revert iss; induction us as [|u us IH]; intros iss NE; [exact NE|]. cbn [fold_left]. apply IH.
+  destruct iss as [|[n g] t]; [congruence|]. cbn [spec_update]. destruct (snap_eqb g u); discriminate.
+Qed.
+
+Theorem model_satisfies_spec c : inputs_ok c = true -> c_keep c < H31 ->
+  N.of_nat (length (final_issued c)) <= M32 ->
+  spec_okb (model_case c) = true.
+Proof.
+  intros IO K L. destruct (Rel_start c IO) as [R0 K0].
+  assert (Forall snap_sorted (c_updates c)) as F.
+  { unfold inputs_ok in IO. apply andb_true_iff in IO as [IO _]. apply andb_true_iff in IO as [IO _].
+    apply Forall_forall. intros x Hx. apply snap_sortedb_spec. exact (proj1 (forallb_forall _ _) IO x Hx). }
+  destruct (updates_ok_model (c_keep c) _ _ (c_updates c) R0 K0 F) as (O & RF & KF).
+  unfold model_case. destruct (model_updates (model_start c) (c_updates c)) as [h obs] eqn:M. cbn [fst snd] in *.
+  unfold spec_okb, final_issued, start_issued in *.
+  cbn [c_keep c_init c_updates i_updates i_ready0 i_ready i_serial i_full i_answers] in *.
+  rewrite O. cbn [negb andb].
+  remember (fold_left spec_update (c_updates c)
+              match c_init c with Some (s0, a, b) => [(sadd s0 1, b); (s0, a)] | None => [] end) as iss eqn:EI.
+  destruct iss as [|[n cur] t].
+  - destruct (Rel_nil _ RF) as [C D]. unfold is_active, serial. rewrite C, D. reflexivity.
+  - destruct (Rel_head _ _ _ _ RF) as [Es Ec]. unfold is_active. rewrite Ec, Es. cbn [Bool.eqb spec_serial andb].
+    rewrite N.eqb_refl. destruct (snap_eqb_spec cur cur); [|congruence]. cbn [andb].
+    apply forallb_forall. intros [[own s] a] Hq. apply in_map_iff in Hq as [[[own' s'] a'] [E Hq]].
+    inversion E; subst. clear E.
+    assert (s < M32) as Ls.
+    { unfold inputs_ok in IO. apply andb_true_iff in IO as [_ IO]. pose proof (proj1 (forallb_forall _ _) IO _ Hq) as Q.
+      cbn in Q. apply N.ltb_lt. exact Q. }
+    rewrite <- KF. apply query_ok_model; [exact RF|discriminate|rewrite KF; exact K|exact L|exact Ls].
+Qed.
